@@ -1,6 +1,147 @@
-/- Driver/C10 — stub until the property's model driver is written. -/
+/-
+Driver/C10 — runs the executable models of the in-memory and on-disk caches on protocol lines.
+
+  begin mem max=<n> bytes=<n>|none policy=lru|lfu|fifo|random|ttl dttl=long|short
+  begin disk dttl=long|short
+  put <key> <hex> ev=auto|-|k1,k2,…        putttl <key> <hex> long|short ev=…
+  get <key>   contains <key>   remove <key>   clear   size   stats   reopen (disk only)
+
+`ev=` on a put names the victims the implementation chose where the choice is not determined
+(Lfu ties, Random); the model checks the choice is one the policy allows (`victimsOk`) and
+answers `bad-choice` otherwise. `ev=auto`: the model computes the victims itself (Lru, Fifo
+with distinct time stamps; Ttl policy; no eviction).  The disk cache ignores `ev=`.
+-/
 import Driver.Common
-open Drv
+import Cascette.Model.MemCache
+import Cascette.Model.DiskCache
+open Cascette Drv
+open Cascette.Model
+
+inductive St where
+  | none
+  | mem (cfg : MemCache.Config) (s : MemCache.State)
+  | disk (cfg : DiskCache.Config) (s : DiskCache.State)
+
+def kv (pre : String) (t : String) : Option String :=
+  if t.startsWith pre then some (t.drop pre.length).toString else none
+
+def parsePolicy : String → Option MemCache.Policy
+  | "lru" => some .lru | "lfu" => some .lfu | "fifo" => some .fifo
+  | "random" => some .random | "ttl" => some .ttl | _ => none
+
+def parseClass : String → Option Bool
+  | "short" => some true | "long" => some false | _ => none
+
+def parseKeys (s : String) : Option (List Nat) :=
+  if s == "-" then some [] else
+  (s.splitOn ",").foldr (fun t acc => match t.toNat?, acc with
+    | some n, some l => some (n :: l)
+    | _, _ => none) (some [])
+
+/-- `none` = auto -/
+def parseEv (t : String) : Option (Option (List Nat)) :=
+  match kv "ev=" t with
+  | some "auto" => some none
+  | some s => (parseKeys s).map some
+  | none => none
+
+def showVal (v : List Nat) : String := hexOfNats v
+
+def memPut (cfg : MemCache.Config) (s : MemCache.State) (k : Nat) (v : List Nat) (short : Bool)
+    (ev : Option (List Nat)) : St × String :=
+  let s1 := MemCache.tick s
+  let vs := match ev with
+    | some l => l
+    | none => MemCache.detVictims cfg.policy s1.store (MemCache.evictN cfg s1)
+  let op := MemCache.Op.putTtl k v short vs
+  if MemCache.opOk cfg s op then
+    (.mem cfg (MemCache.step cfg s op).1, "ok")
+  else (.mem cfg s, "bad-choice")
+
+def handle (st : St) (toks : List String) : St × String :=
+  match toks with
+  | ["begin", "mem", mx, by_, pol, dt] =>
+    match (kv "max=" mx).bind (·.toNat?), kv "bytes=" by_, (kv "policy=" pol).bind parsePolicy,
+          (kv "dttl=" dt).bind parseClass with
+    | some mx, some b, some pol, some dt =>
+      let mb : Option (Option Nat) := if b == "none" then some none else b.toNat?.map some
+      match mb with
+      | some mb =>
+        if mx = 0 ∨ mb = some 0 then (.none, "err:config") else
+        (.mem { maxEntries := mx, maxBytes := mb, policy := pol, defaultShort := dt } MemCache.init, "ok")
+      | none => (st, "bad-op")
+    | _, _, _, _ => (st, "bad-op")
+  | ["begin", "disk", dt] =>
+    match (kv "dttl=" dt).bind parseClass with
+    | some dt => (.disk { defaultShort := dt } DiskCache.init, "ok")
+    | none => (st, "bad-op")
+  | _ =>
+  match st with
+  | .none => (st, "bad-op")
+  | .mem cfg s =>
+    match toks with
+    | ["put", k, v, ev] =>
+      match k.toNat?, parseHexNat v, parseEv ev with
+      | some k, some v, some ev => memPut cfg s k v cfg.defaultShort ev
+      | _, _, _ => (st, "bad-op")
+    | ["putttl", k, v, c, ev] =>
+      match k.toNat?, parseHexNat v, parseClass c, parseEv ev with
+      | some k, some v, some c, some ev => memPut cfg s k v c ev
+      | _, _, _, _ => (st, "bad-op")
+    | ["get", k] =>
+      match k.toNat? with
+      | some k =>
+        let (s', o) := MemCache.step cfg s (.get k)
+        (.mem cfg s', match o with | .val (some v) => "val " ++ showVal v | _ => "none")
+      | none => (st, "bad-op")
+    | ["contains", k] =>
+      match k.toNat? with
+      | some k =>
+        let (s', o) := MemCache.step cfg s (.contains k)
+        (.mem cfg s', match o with | .bool true => "true" | _ => "false")
+      | none => (st, "bad-op")
+    | ["remove", k] =>
+      match k.toNat? with
+      | some k =>
+        let (s', o) := MemCache.step cfg s (.remove k)
+        (.mem cfg s', match o with | .bool true => "true" | _ => "false")
+      | none => (st, "bad-op")
+    | ["clear"] => (.mem cfg (MemCache.step cfg s .clear).1, "ok")
+    | ["size"] =>
+      let (s', o) := MemCache.step cfg s .size
+      (.mem cfg s', match o with | .num n => toString n | _ => "?")
+    | ["stats"] =>
+      let (s', o) := MemCache.step cfg s .stats
+      (.mem cfg s', match o with | .stats n b => toString n ++ " " ++ toString b | _ => "?")
+    | _ => (st, "bad-op")
+  | .disk cfg s =>
+    let go (op : DiskCache.Op) : St × String :=
+      let (s', o) := DiskCache.step cfg s op
+      (.disk cfg s', match o with
+        | .unit => "ok"
+        | .got .miss => "none"
+        | .got (.hit v) => "val " ++ showVal v
+        | .got .ioErr => "err:io"
+        | .bool b => if b then "true" else "false"
+        | .num n => toString n
+        | .stats n b => toString n ++ " " ++ toString b)
+    match toks with
+    | ["put", k, v, _ev] =>
+      match k.toNat?, parseHexNat v with
+      | some k, some v => go (.put k v)
+      | _, _ => (st, "bad-op")
+    | ["putttl", k, v, c, _ev] =>
+      match k.toNat?, parseHexNat v, parseClass c with
+      | some k, some v, some c => go (.putTtl k v c)
+      | _, _, _ => (st, "bad-op")
+    | ["get", k] => match k.toNat? with | some k => go (.get k) | none => (st, "bad-op")
+    | ["contains", k] => match k.toNat? with | some k => go (.contains k) | none => (st, "bad-op")
+    | ["remove", k] => match k.toNat? with | some k => go (.remove k) | none => (st, "bad-op")
+    | ["clear"] => go .clear
+    | ["size"] => go .size
+    | ["stats"] => go .stats
+    | ["reopen"] => go .reopen
+    | _ => (st, "bad-op")
 
 def main : IO Unit := do
-  loopPure (← IO.getStdin) (← IO.getStdout) (fun _ => "bad-op")
+  loopState (← IO.getStdin) (← IO.getStdout) handle St.none
